@@ -25,7 +25,7 @@ func init() {
 
 func runC09(c *Ctx) bool {
 	nMax := c.Pick(5, 6)
-	gen.ForEachLabeled(nMax, 2, []string{"a.go", "b"}, func(i int, f model.Forest) {
+	gen.ForEachLabeled(nMax, 2, ExtAlphabet, func(i int, f model.Forest) {
 		if !c.Mine(i) {
 			return
 		}
@@ -113,9 +113,9 @@ func evalC09(c *Ctx, cs *Case) {
 	doc := gen.Spell(f, gen.Canonical)
 	r := gen.New(cs.Seed, 99)
 	hostile := cs.Kind == "random-hostile"
-	extIdx := []int{int(cs.Seed%uint64(7)), int((cs.Seed+3)%uint64(7))}
+	extIdx := []int{int(cs.Seed % uint64(len(ExtLists))), int((cs.Seed + 3) % uint64(len(ExtLists)))}
 	if !c.Quick() && cs.Kind == "exhaustive" {
-		extIdx = []int{0, 1, 2, 3, 4, 5, 6}
+		extIdx = allExt()
 	}
 	for _, ei := range extIdx {
 		exts := ExtLists[ei]
